@@ -119,6 +119,13 @@ class Compiler:
         body = node.body
 
         try:
+            ends_with_declaration = bool(body) and isinstance(
+                body[-1], FunctionDeclaration
+            )
+            body = self._hoist_functions(body)
+            if ends_with_declaration:
+                body = body + [EmptyStatement()]
+
             # Compile all statements except the last one
             for stmt in body[:-1] if body else []:
                 self._compile_statement(stmt)
@@ -263,6 +270,14 @@ class Compiler:
             self._emit(OpCode.STORE_CLOSURE, closure_slot)
             return
         self._emit(OpCode.STORE_NAME, self._add_name(name))
+
+    def _hoist_functions(self, statements: List[Node]) -> List[Node]:
+        """Function declarations take effect before the other statements of the
+        body they appear in: compile them now, return the remaining statements."""
+        for stmt in statements:
+            if isinstance(stmt, FunctionDeclaration):
+                self._compile_statement(stmt)
+        return [s for s in statements if not isinstance(s, FunctionDeclaration)]
 
     def _context_index(self, ctx: LoopContext) -> int:
         """Position of a context on the stack (by identity: contexts compare equal
@@ -1122,7 +1137,7 @@ class Compiler:
             self._emit(OpCode.RETURN)
         else:
             # Block body: compile statements
-            for stmt in node.body.body:
+            for stmt in self._hoist_functions(node.body.body):
                 self._compile_statement(stmt)
             # Implicit return undefined
             self._emit(OpCode.RETURN_UNDEFINED)
@@ -1220,7 +1235,7 @@ class Compiler:
         self._outer_locals.pop()
 
         # Compile function body
-        for stmt in body.body:
+        for stmt in self._hoist_functions(body.body):
             self._compile_statement(stmt)
 
         # Implicit return undefined
